@@ -366,13 +366,42 @@ func (t *transpiler) evaluateFor(forStatement parser.For) error {
 }
 
 func (t *transpiler) evaluateVarDefinition(definition parser.VariableDefinition) error {
-	for i, variable := range definition.Variables() {
-		result, err := t.evaluateExpression(definition.Values()[i], true)
+	return t.evaluateSimultaneousAssignment(definition.Variables(), definition.Values())
+}
+
+// evaluateSimultaneousAssignment evaluates all values before the first variable is written
+// (a, b = b, a must use the old values on the right side).
+func (t *transpiler) evaluateSimultaneousAssignment(variables []parser.Variable, expressions []parser.Expression) error {
+	values := []string{}
+
+	for i := range variables {
+		result, err := t.evaluateExpression(expressions[i], true)
 
 		if err != nil {
 			return err
 		}
-		err = t.converter.VarDefinition(variable.Name(), result.firstValue(), variable.Global())
+		values = append(values, result.firstValue())
+	}
+
+	// If several variables are written, buffer the values because they might refer to the variables.
+	if len(variables) > 1 {
+		for i, value := range values {
+			buffer := fmt.Sprintf("_ma%d", i)
+			err := t.converter.VarDefinition(buffer, value, true)
+
+			if err != nil {
+				return err
+			}
+			values[i], err = t.converter.VarEvaluation(buffer, true, true)
+
+			if err != nil {
+				return err
+			}
+		}
+	}
+
+	for i, variable := range variables {
+		err := t.converter.VarDefinition(variable.Name(), values[i], variable.Global())
 
 		if err != nil {
 			return err
@@ -407,19 +436,7 @@ func (t *transpiler) evaluateVarDefinitionCallAssignment(definition parser.Varia
 }
 
 func (t *transpiler) evaluateVarAssignment(assignment parser.VariableAssignment) error {
-	for i, variable := range assignment.Variables() {
-		result, err := t.evaluateExpression(assignment.Values()[i], true)
-
-		if err != nil {
-			return err
-		}
-		err = t.converter.VarDefinition(variable.Name(), result.firstValue(), variable.Global())
-
-		if err != nil {
-			return err
-		}
-	}
-	return nil
+	return t.evaluateSimultaneousAssignment(assignment.Variables(), assignment.Values())
 }
 
 func (t *transpiler) evaluateVarAssignmentCallAssignment(assignment parser.VariableAssignmentCallAssignment) error {
